@@ -62,6 +62,10 @@ func handleDigestAuthFunc(username, password string) ResponseMiddleware {
 		if req.Header == nil {
 			req.Header = make(http.Header)
 		}
+		// the re-setup may have changed the Content-Type (a new multipart boundary)
+		if ct := r.getHeader(header.ContentType); ct != "" && req.Body != nil {
+			req.Header.Set(header.ContentType, ct)
+		}
 		req.Header.Set(header.Authorization, auth)
 		resp.Response, err = client.GetTransport().RoundTrip(&req)
 		if err != nil {
